@@ -84,6 +84,30 @@ checks = {
    note="reference resolution rule taken from the package's own table test; regexp package trusted",
    technique="bounded-exhaustive input enumeration on the real matcher vs regexp reference"),
 }
+# additions of the later rounds (appended to the level text so the original wording stays)
+extra = {
+ "C01": "; + 1500 long mailbox names whose UTF-7 form crosses the transformer's 128/256/512-byte buffers",
+ "C04": "; + backend answers to APPEND (refused unread / partly read, accepted partly read), announced literal sizes 2^32, 2^32+1, 2^33+4096, 2^62, 2^63-1",
+ "C05": "; + 'UID' in front of commands that have no UID form (85 events)",
+ "C06": "; + end-of-run census of every goroutine with an imapserver frame (culprit case attributed by serial re-runs)",
+ "C08": "; + sequence numbers in ESEARCH MIN/MAX",
+ "C09": "; + the life cycle of the saved search result '$' (SAVE incl. empty results, refused SAVE, UID EXPUNGE $, EXPUNGE, SELECT)",
+ "C10": "; + 44 transcripts incl. MOVE fallback with more STORE/EXPUNGE responses than the internal channels buffer and two-literal LOGIN failed early; success after a write error without a delivered completion is a violation; delay-bounded second pass",
+ "C11": "; + buffered literals announcing 2^62, 2^63-1, 16 GiB; growth families of pairwise distinct elements; quadratic-CPU rule (>= 24x over three doublings ending at >= 2 s)",
+ "C12": "; 32 command kinds incl. SORT, THREAD, QUOTA, METADATA, NAMESPACE, a second ESEARCH answered in any order, FETCH data in descending order, STATUS names differing by case only; start state not authenticated with every command refused",
+ "C13": "; + connection lost inside a tagged completion line; exhaustive data-race pass under the controlled scheduler (-race build, race-transparent baton); supplementary free-running -race pass over honest STARTTLS upgrades (crypto/tls cannot run under the scheduler)",
+ "C14": "; + lock-hygiene family: 29 early-return / special-marker commands each followed by and racing with a LIST-STATUS probe; exhaustive data-race pass (-race build)",
+ "C16": "; mailbox names through the wire codec with and without QuotedUTF8",
+ "C18": "; 24 commands (every client command taking caller strings incl. QUOTA/METADATA/SORT/THREAD/MOVE/CONDSTORE entry name), enablement incl. declined, UNAUTHENTICATE after ENABLE, capabilities withdrawn after LOGIN",
+ "C19": "; the saved-search marker '$' as operand and key; part D: the in-memory backend's matcher (UserSession.Search) on And results, NOT/OR sub-trees and mixed forms over a 192/384-message mailbox",
+ "C20": "; references ending in two delimiters",
+}
+for k, v in extra.items():
+    checks[k]["text"] += v
+checks["C11"]["note"] = checks["C11"]["note"].replace("CPU-time growth only reported at >= 6x per doubling", "CPU-time growth reported at >= 6x per doubling or >= 24x over three doublings ending at >= 2 s of CPU")
+checks["C13"]["note"] += "; the STARTTLS race pass is sampling (supplementary), everything else exhaustive within the stated bounds"
+checks["C14"]["note"] += "; a client that stops reading is outside the environment model"
+
 m = {
  "version": 1,
  "setup_cmd": "/verif/setup.sh",
